@@ -550,4 +550,263 @@ theorem scan_total : ∀ (fmt : List Byte) (mode : Option Int) (args : List Arg)
     · obtain ⟨ws, e⟩ := scan_total rest (some pad) args buf hb
       rw [e]; exact ⟨_, rfl⟩
 
+/-! ### exactness -/
+
+/-- scanner state of the model that corresponds to a parser state -/
+def modeOf : PMode → Option Int
+  | .text => none
+  | .pct => some 0
+  | .width w => some w
+
+theorem modeOf_ne_text (m : PMode) (h : m ≠ .text) : modeOf m = some (m.w : Int) := by
+  cases m <;> simp [modeOf, PMode.w] at h ⊢
+
+theorem flatten_replicate_single (n : Nat) (c : Byte) :
+    (List.replicate n [c]).flatten = List.replicate n c := by
+  induction n with
+  | zero => rfl
+  | succ n ih => simp [List.replicate_succ, ih]
+
+theorem flatten_map_single (s : List Byte) : (s.map fun c => [c]).flatten = s := by
+  induction s with
+  | nil => rfl
+  | cons a s ih => simp [ih]
+
+theorem fmtString_exact (a : Arg) (w : Nat) (hw : w < 2^63) (hr : a.inRange = true) :
+    (fmtString a (w : Int)).flatten = render .s w a := by
+  cases a with
+  | str s =>
+    simp only [Arg.inRange, decide_eq_true_eq] at hr
+    have : (wrap64 ((w : Int) - s.length)).toNat = w - s.length := by unfold wrap64; omega
+    simp [fmtString, fmtRepeat, render, leftPad, this, flatten_map_single]
+  | bytes s =>
+    simp only [Arg.inRange, decide_eq_true_eq] at hr
+    have : (wrap64 ((w : Int) - s.length)).toNat = w - s.length := by unfold wrap64; omega
+    simp [fmtString, fmtRepeat, render, leftPad, this]
+  | uns k v => simp [fmtString, render]
+  | sgn k v => simp [fmtString, render]
+  | bool b => simp [fmtString, render]
+  | other => simp [fmtString, render]
+
+theorem fmtBool_exact (a : Arg) (w : Nat) : (fmtBool a).flatten = render .t w a := by
+  cases a with
+  | bool b => cases b <;> simp [fmtBool, render]
+  | _ => simp [fmtBool, render]
+
+theorem fmtVerb_exact (buf : List Byte) (c : Byte) (a : Arg) (w : Nat) (v : Verb)
+    (hv : Verb.ofByte c = some v) (hw : w < 2^63) (hr : a.inRange = true)
+    (hb : buf.length = numFmtBufLen) :
+    ∃ buf' out, fmtVerb buf c a (w : Int) = .ok (buf', out) ∧ buf'.length = numFmtBufLen ∧
+      out.flatten = render v w a := by
+  unfold Verb.ofByte at hv
+  unfold fmtVerb
+  by_cases h1 : c = 100
+  · have : ¬ c = 111 := by rw [h1]; decide
+    rw [if_pos h1] at hv; simp only [Option.some.injEq] at hv
+    subst hv
+    obtain ⟨buf', e, l⟩ := fmtInt_exact buf a .b10 w hb hr
+    rw [if_neg this, if_pos h1, e]
+    exact ⟨buf', _, rfl, l, by simp [render]⟩
+  by_cases h2 : c = 120
+  · have : ¬ c = 111 := by rw [h2]; decide
+    rw [if_neg h1, if_pos h2] at hv; simp only [Option.some.injEq] at hv
+    subst hv
+    obtain ⟨buf', e, l⟩ := fmtInt_exact buf a .b16 w hb hr
+    rw [if_neg this, if_neg h1, if_pos h2, e]
+    exact ⟨buf', _, rfl, l, by simp [render]⟩
+  by_cases h3 : c = 111
+  · rw [if_neg h1, if_neg h2, if_pos h3] at hv; simp only [Option.some.injEq] at hv
+    subst hv
+    obtain ⟨buf', e, l⟩ := fmtInt_exact buf a .b8 w hb hr
+    rw [if_pos h3, e]
+    exact ⟨buf', _, rfl, l, by simp [render]⟩
+  by_cases h4 : c = 115
+  · rw [if_neg h1, if_neg h2, if_neg h3, if_pos h4] at hv; simp only [Option.some.injEq] at hv
+    subst hv
+    rw [if_neg h3, if_neg h1, if_neg h2, if_pos h4]
+    exact ⟨buf, _, rfl, hb, fmtString_exact a w hw hr⟩
+  by_cases h5 : c = 116
+  · rw [if_neg h1, if_neg h2, if_neg h3, if_neg h4, if_pos h5] at hv; simp only [Option.some.injEq] at hv
+    subst hv
+    rw [if_neg h3, if_neg h1, if_neg h2, if_neg h4]
+    exact ⟨buf, _, rfl, hb, fmtBool_exact a w⟩
+  · rw [if_neg h1, if_neg h2, if_neg h3, if_neg h4, if_neg h5] at hv; cases hv
+
+theorem ofByte_isVerb (c : Byte) (v : Verb) (h : Verb.ofByte c = some v) : isVerb c = true := by
+  unfold Verb.ofByte at h
+  unfold isVerb
+  by_cases h1 : c = 100 <;> by_cases h2 : c = 120 <;> by_cases h3 : c = 111 <;>
+    by_cases h4 : c = 115 <;> by_cases h5 : c = 116 <;> simp [h1, h2, h3, h4, h5] at h ⊢
+
+theorem scan_exact : ∀ (fmt : List Byte) (m : PMode) (args : List Arg) (buf : List Byte) (pieces : List Piece),
+    buf.length = numFmtBufLen → (∀ a ∈ args, a.inRange = true) → m.w < 2^63 →
+    parse m fmt = some pieces →
+    ∃ ws, scan (modeOf m) fmt args buf = .ok ws ∧ ws.flatten = specOutput pieces args
+  | [], m, args, buf, pieces, hb, hr, hw, hp => by
+    simp only [parse] at hp
+    split at hp
+    · simp only [Option.some.injEq] at hp
+      subst hp
+      refine ⟨_, ?_, rfl⟩
+      cases h : modeOf m <;> rfl
+    · cases hp
+  | c :: rest, m, args, buf, pieces, hb, hr, hw, hp => by
+    simp only [parse] at hp
+    by_cases hm : m = .text
+    · subst hm
+      simp only [if_true, modeOf, scan] at hp ⊢
+      by_cases hc : c = 37
+      · simp only [hc, if_true] at hp ⊢
+        exact scan_exact rest .pct args buf pieces hb hr (by simp [PMode.w]) hp
+      · simp only [hc, if_false, Option.map_eq_some_iff] at hp ⊢
+        obtain ⟨ps, hps, rfl⟩ := hp
+        obtain ⟨ws, e, f⟩ := scan_exact rest .text args buf ps hb hr (by simp [PMode.w]) hps
+        simp only [modeOf] at e
+        rw [e]
+        exact ⟨_, rfl, by simp [specOutput, f]⟩
+    · simp only [hm, if_false] at hp
+      rw [modeOf_ne_text m hm]
+      simp only [scan]
+      by_cases hc : c = 37
+      · simp only [hc, if_true] at hp ⊢
+        split at hp
+        · simp only [Option.map_eq_some_iff] at hp
+          obtain ⟨ps, hps, rfl⟩ := hp
+          obtain ⟨ws, e, f⟩ := scan_exact rest .text args buf ps hb hr (by simp [PMode.w]) hps
+          simp only [modeOf] at e
+          rw [e]
+          exact ⟨_, rfl, by simp [specOutput, f]⟩
+        · cases hp
+      · simp only [hc, if_false] at hp ⊢
+        by_cases hd : 48 ≤ c ∧ c ≤ 57
+        · simp only [hd, and_self, if_true] at hp ⊢
+          split at hp
+          · rename_i hlt
+            have := scan_exact rest (.width (m.w * 10 + (c.toNat - 48))) args buf pieces hb hr
+              (by simpa [PMode.w] using hlt) hp
+            simp only [modeOf] at this
+            have e : wrap64 (wrap64 ((m.w : Int) * 10) + ((c.toNat - 48 : Nat) : Int))
+                = ((m.w * 10 + (c.toNat - 48) : Nat) : Int) := by
+              unfold wrap64; omega
+            rw [e]
+            exact this
+          · cases hp
+        · simp only [hd, if_false] at hp ⊢
+          cases hv : Verb.ofByte c with
+          | none => simp [hv] at hp
+          | some v =>
+            simp only [hv, Option.map_eq_some_iff] at hp
+            obtain ⟨ps, hps, rfl⟩ := hp
+            simp only [ofByte_isVerb c v hv, if_true]
+            cases args with
+            | nil =>
+              obtain ⟨ws, e, f⟩ := scan_exact rest .text [] buf ps hb hr (by simp [PMode.w]) hps
+              simp only [modeOf] at e
+              rw [e]
+              exact ⟨_, rfl, by simp [specOutput, f]⟩
+            | cons a args =>
+              obtain ⟨buf', out, e1, l, f1⟩ := fmtVerb_exact buf c a m.w v hv hw
+                (hr a (by simp)) hb
+              obtain ⟨ws, e, f⟩ := scan_exact rest .text args buf' ps l
+                (fun a ha => hr a (by simp [ha])) (by simp [PMode.w]) hps
+              simp only [modeOf] at e
+              simp only [e1, e]
+              exact ⟨_, rfl, by simp [specOutput, f, f1]⟩
+
+/-! ### magnitude -/
+
+def digitVal (c : Byte) : Nat := if c.toNat < 58 then c.toNat - 48 else c.toNat - 87
+
+theorem digitVal_digitCh : ∀ r, r < 16 → digitVal (digitCh r) = r := by decide
+
+/-- a digit character: `'0'..'9'` or `'a'..'f'` -/
+def isDigitCh (c : Byte) : Bool := (48 ≤ c && c ≤ 57) || (97 ≤ c && c ≤ 102)
+
+theorem isDigitCh_digitCh : ∀ r, r < 16 → isDigitCh (digitCh r) = true := by decide
+
+theorem ofDigits_eq_foldr (d : Nat) (L : List Byte) :
+    ofDigits d L.reverse = L.foldr (fun c acc => acc * d + digitVal c) 0 := by
+  unfold ofDigits
+  rw [List.foldl_reverse]
+  rfl
+
+theorem foldr_digitsLE (d : Nat) (hd0 : 0 < d) (hd : d ≤ 16) : ∀ (f u : Nat), u < d^(f+1) →
+    (digitsLE d f u).foldr (fun c acc => acc * d + digitVal c) 0 = u
+  | 0, u, h => by
+    have hu : u < d := by simpa using h
+    simp only [digitsLE, List.foldr_cons, List.foldr_nil, Nat.zero_mul, Nat.zero_add]
+    rw [digitVal_digitCh _ (by have := Nat.mod_lt u hd0; omega), Nat.mod_eq_of_lt hu]
+  | f+1, u, h => by
+    have hm := Nat.mod_lt u hd0
+    simp only [digitsLE, List.foldr_cons]
+    rw [digitVal_digitCh _ (by omega)]
+    split
+    · rename_i h0
+      simp only [List.foldr_nil, Nat.zero_mul, Nat.zero_add]
+      have := Nat.div_add_mod u d
+      rw [h0] at this
+      omega
+    · rw [foldr_digitsLE d hd0 hd f (u / d) (by
+        apply Nat.div_lt_of_lt_mul; rw [Nat.pow_succ, Nat.mul_comm] at h; exact h)]
+      have := Nat.div_add_mod u d
+      rw [Nat.mul_comm]
+      exact this
+
+theorem digitsLE_valid (d : Nat) (hd0 : 0 < d) (hd : d ≤ 16) : ∀ (f u : Nat), ∀ c ∈ digitsLE d f u,
+    isDigitCh c = true ∧ digitVal c < d
+  | 0, u, c, hc => by
+    simp [digitsLE] at hc
+    subst hc
+    have hm := Nat.mod_lt u hd0
+    exact ⟨isDigitCh_digitCh _ (by omega), by rw [digitVal_digitCh _ (by omega)]; exact hm⟩
+  | f+1, u, c, hc => by
+    simp only [digitsLE, List.mem_cons] at hc
+    have hm := Nat.mod_lt u hd0
+    rcases hc with hc | hc
+    · subst hc
+      exact ⟨isDigitCh_digitCh _ (by omega), by rw [digitVal_digitCh _ (by omega)]; exact hm⟩
+    · split at hc
+      · simp at hc
+      · exact digitsLE_valid d hd0 hd f _ c hc
+
+theorem ofDigits_digitsOf (d : Nat) (hd1 : 1 < d) (hd : d ≤ 16) (n : Nat) : ofDigits d (digitsOf d n) = n := by
+  unfold digitsOf
+  rw [ofDigits_eq_foldr]
+  apply foldr_digitsLE d (by omega) hd
+  calc n < d^n := Nat.lt_pow_self hd1
+    _ ≤ d^(n+1) := Nat.pow_le_pow_right (by omega) (by omega)
+
+/-- no leading zero, except for the number 0 itself -/
+theorem digitsLE_last (d : Nat) (hd1 : 1 < d) (hd : d ≤ 16) : ∀ (f u : Nat), u < d^(f+1) → 0 < u →
+    ∀ h, digitVal ((digitsLE d f u).getLast h) ≠ 0
+  | 0, u, hu, hpos, _ => by
+    have hu : u < d := by simpa using hu
+    simp only [digitsLE, List.getLast_singleton]
+    rw [digitVal_digitCh _ (by have := Nat.mod_lt u (show 0 < d by omega); omega), Nat.mod_eq_of_lt hu]
+    omega
+  | f+1, u, hu, hpos, hne => by
+    by_cases h0 : u / d = 0
+    · have hlt : u < d := by
+        rcases Nat.div_eq_zero_iff.1 h0 with h | h <;> omega
+      have : digitsLE d (f+1) u = [digitCh (u % d)] := by simp [digitsLE, h0]
+      simp only [this, List.getLast_singleton]
+      rw [digitVal_digitCh _ (by have := Nat.mod_lt u (show 0 < d by omega); omega), Nat.mod_eq_of_lt hlt]
+      omega
+    · have e : digitsLE d (f+1) u = digitCh (u % d) :: digitsLE d f (u / d) := by simp [digitsLE, h0]
+      have hne' := digitsLE_ne_nil d f (u / d)
+      simp only [e, List.getLast_cons hne']
+      exact digitsLE_last d hd1 hd f (u / d) (by
+        apply Nat.div_lt_of_lt_mul; rw [Nat.pow_succ, Nat.mul_comm] at hu; exact hu) (Nat.pos_of_ne_zero h0) hne'
+
+/-- length of the rendered integer: never more than `maxBufSize` bytes -/
+theorem renderInt_length_le (b : Base) (w : Nat) (neg : Bool) (u : Nat) (hu : u < 2^64) :
+    (renderInt b w neg u).length ≤ maxBufSize := by
+  obtain ⟨hd1, hd16⟩ := base_bounds b
+  have hpow : u < b.divider^(21+1) := Nat.lt_of_lt_of_le hu (base_pow b)
+  have hdig := digitsOf_eq b.divider hd1 21 u hpow
+  have hl := digitsLE_length b.divider 21 u
+  have hmax : maxBufSize = 32 := rfl
+  have hlen : (digitsOf b.divider u).length ≤ 22 := by rw [hdig]; simpa using hl
+  cases b <;> cases neg <;> simp [renderInt, leftPad, hmax, Base.divider] at hlen ⊢ <;> omega
+
 end Firefly.Kfmt
